@@ -250,6 +250,11 @@ class World:
         self.counting = self.fam in COUNTING
         self.mkl = cfg.get("mkl")
         self.shared = bool(cfg.get("shared"))
+        # free_gen: the code's own generator (the one refills draw from) is seeded once per run
+        # and then left alone, so that whatever the code does to it is visible in the refills
+        self.free_gen = bool(cfg.get("free_gen"))
+        if self.free_gen:
+            boot.numba_seed(int(cfg.get("gen_seed", 1)))
         self.use_shadow = bool(cfg.get("shadow"))
         self.nodes = []
         self.msgs = {}
@@ -490,7 +495,10 @@ class World:
             self.note_key(k)
         if self.fam in LOG:
             install_draws(sk, ev.get("ds", 1), ev.get("ptr", 0))
-            boot.numba_seed(ev.get("ds", 1) + 1)
+            if ev.get("fd") is not None:
+                sk.rand_nums[:] = float(ev["fd"])  # forced draws (an arbitrary, legal draw sequence)
+            if not self.free_gen:
+                boot.numba_seed(ev.get("ds", 1) + 1)
         api(ev["op"], self._call, sk, ev)
         if self.counting:
             for k, v in exp:
